@@ -275,7 +275,13 @@ func illFormed(r *rand.Rand) (string, string) {
 	case 5:
 		spec.Active, extra, what = []string{"ti"}, "time_intervals:\n  - name: ti\n    time_intervals:\n      - weekdays: ['monday']\n", "root with active interval"
 	case 6:
-		spec.Routes = append(spec.Routes, &model.RouteSpec{Receiver: "nope"})
+		// at any depth, at any position among the siblings
+		at := spec
+		for len(at.Routes) > 0 && r.Intn(2) == 0 {
+			at = at.Routes[r.Intn(len(at.Routes))]
+		}
+		k := r.Intn(len(at.Routes) + 1)
+		at.Routes = append(at.Routes[:k:k], append([]*model.RouteSpec{{Receiver: "nope"}}, at.Routes[k:]...)...)
 		what = "undefined receiver"
 	case 7:
 		spec.Routes = append(spec.Routes, &model.RouteSpec{Receiver: "r0", Mute: []string{"undefined_ti"}})
@@ -531,14 +537,28 @@ func TestSecretsNeverPrinted(t *testing.T) {
 
 func TestPrintLoadStability(t *testing.T) {
 	run := vf.Cur()
-	sub := run.Sub("print-load-stability", "generated configurations without secrets (routing trees with all option shapes, inhibit rules, time intervals): Load(cfg.String()) must succeed and yield the same routing tree (every resolved RouteOpts field and Match() on 12 label sets), the same inhibit rules and time intervals with equal ContainsTime on sampled instants; non-trivial = tree with >=2 nodes; distinct by config", 200)
+	sub := run.Sub("print-load-stability", "generated configurations without secrets (routing trees with all option shapes incl. nodes mixing match, match_re and up to 4 new-style matchers, inhibit rules, time intervals incl. ranges ending at 24:00); the routing tree is built from the loaded configuration twice (as the running instance does) and the printed form must be the same before and after; Load(cfg.String()) must succeed and yield the same routing tree (every resolved RouteOpts field and Match() on 12 label sets), the same inhibit rules and time intervals with equal ContainsTime on sampled instants; non-trivial = tree with >=2 nodes; distinct by config", 200)
 	n := run.N(1500, 150000)
 	vf.Parallel(t, n, 16, func(t *testing.T, i int) {
 		r := sub.Rand(i)
-		c := scen.GenConfig(r, scen.GenOpt{Depth: 3, Fanout: 3, Inhibit: r.Intn(2) == 0, Intervals: r.Intn(2) == 0})
+		c := scen.GenConfig(r, scen.GenOpt{Depth: 3, Fanout: 3, Inhibit: r.Intn(2) == 0, Intervals: r.Intn(2) == 0, MixedMatchers: true})
 		// receivers without integrations: webhook URLs are secret-typed and print as <secret>
 		for k := range c.Receivers {
 			c.Receivers[k].Integs = nil
+		}
+		// time ranges touching the ends of the day (00:00 and the legal end-of-day value 24:00)
+		for k := range c.Intervals {
+			for j := range c.Intervals[k].Specs {
+				sp := &c.Intervals[k].Specs[j]
+				for q := range sp.Times {
+					switch r.Intn(4) {
+					case 0:
+						sp.Times[q][1] = 1440
+					case 1:
+						sp.Times[q] = [2]int{0, 1440}
+					}
+				}
+			}
 		}
 		y := c.YAML()
 		a, err := config.Load(y)
@@ -546,7 +566,17 @@ func TestPrintLoadStability(t *testing.T) {
 			sub.Violation("generated-valid-config-rejected", map[string]any{"config": y, "err": err.Error()})
 			return
 		}
+		// the status API serves the text of a configuration the instance is running with: the routing tree
+		// has been built from it (by the reloader for the dispatcher, and once more for the API) before
+		// anyone asks. Building trees from a loaded configuration must not change what it prints.
+		fresh := a.String()
+		ra := dispatch.NewRoute(a.Route, nil)
+		dispatch.NewRoute(a.Route, nil)
 		printed := a.String()
+		if printed != fresh {
+			sub.Violation("building-the-routing-tree-changes-the-printed-configuration", map[string]any{"config": y, "printed_before": fresh, "printed_after": printed})
+			return
+		}
 		b, err := config.Load(printed)
 		if err != nil {
 			sig := "printed-configuration-does-not-load"
@@ -556,7 +586,7 @@ func TestPrintLoadStability(t *testing.T) {
 			sub.Violation(sig, map[string]any{"config": y, "printed": printed, "err": err.Error()})
 			return
 		}
-		ra, rb := dispatch.NewRoute(a.Route, nil), dispatch.NewRoute(b.Route, nil)
+		rb := dispatch.NewRoute(b.Route, nil)
 		var da, db []string
 		ra.Walk(func(x *dispatch.Route) { da = append(da, describeRoute(x)) })
 		rb.Walk(func(x *dispatch.Route) { db = append(db, describeRoute(x)) })
